@@ -29,6 +29,11 @@ Proof. exact (code_refines C writer_code C18_generated_code). Qed.
 Theorem C18_generated_value_maps : value_side_ok C = true.
 Proof. reflexivity. Qed.
 
+(* `desc not in self.descriptors_seen` = structural inequality to every descriptor seen (model: desc_eqb); probed on
+   constructed pairs incl. definitions with the same identifier *)
+Theorem C18_generated_descriptor_equality : descriptor_equality_structural = true.
+Proof. reflexivity. Qed.
+
 (* SqliteReader enumerates every table of the file (no further predicate in the sqlite_master query) and reads each *)
 Theorem C18_generated_reader_lists_all_tables :
   reader_table_query = all_tables_query /\ reader_iterates_all_tables = true.
